@@ -241,4 +241,9 @@ Full strength: the float fact x·1.0 = x is `F64.mul_one` (Proofs/Lemmas/F64Exac
 theorem tidy_idempotent (v : F64.Bits) (u : Bytes) : tidy (tidy v u).1 (tidy v u).2 = tidy v u :=
   tidy_idempotent_partial F64.mul_one v u
 
+/-- remark (mutation sweep): an all-zero edit `{pos 0, len 0, replace ""}` — what a slice made with
+length 1 instead of 0 would contain — is the identity splice and never out of bounds. -/
+theorem zero_edit_is_identity (u : Bytes) : applyEdit? u ⟨0, 0, []⟩ = some u := by
+  simp [applyEdit?]
+
 end C04
